@@ -424,7 +424,9 @@ type xEvent struct {
 	Err    string
 }
 
-func (e xEvent) ident() string { return fmt.Sprintf("%s %s old=%d new=%d", e.Op, e.Table, e.Old, e.New) }
+func (e xEvent) ident() string {
+	return fmt.Sprintf("%s %s old=%d new=%d", e.Op, e.Table, e.Old, e.New)
+}
 func (e xEvent) String() string {
 	s := e.ident()
 	if e.Before != "" {
